@@ -51,6 +51,9 @@ THEOREMS = [
     "C08_refail_conservative",
     "C08_recovery_root_only",
     "C08_checkpoint_at_root",
+    "C08_recovery_only_at_roots",
+    "C08_idle_parent_no_file",
+    "C08_parent_idle_variant_witness",
 ]
 RULE = (
     "real workflows of term nodes (and generic macros, nested up to 2 deep, built from a level description) in a "
@@ -764,6 +767,8 @@ def run_impl(case):
     probe = dict(probe_tree())
     if case["kind"] == "continue":
         return _run_continue(case)
+    if case["kind"] == "idle":
+        return _run_idle(case)
     nodes.reset()
     kind = case["kind"]
     # ---- A: the first run, up to the cut
@@ -921,6 +926,288 @@ def run_impl(case):
     return {"obs": obs_lines(case, r), "r": r, "stats": stats}
 
 
+# --------------------------------------------------------------------------- failures while the parent is idle
+
+
+def _owners(case):
+    """gid -> (owner id, label) over the whole tree; the outermost graph has id N"""
+    lvs = levels_of(case)
+    root = case["N"]
+    par = {}
+    for lv in lvs:
+        owner = lv["parent"][1] if lv["parent"] is not None else root
+        for g in lv["own"]:
+            par[g] = (owner, ("a" if lv["ui"][g] == 0 else "b") if g in lv["ui"] else f"n{g}")
+    return par
+
+
+def _ancestors(par, g):
+    res = []
+    while g in par:
+        g = par[g][0]
+        res.append(g)
+    return res
+
+
+def _upstream(case, t):
+    """the siblings `t` takes data from, directly or not (interface nodes left out)"""
+    for lv in levels_of(case):
+        if t in lv["own"] and t not in lv["ui"]:
+            slots = lv["spec"]["slots"]
+            seen, todo = set(), [t]
+            while todo:
+                g = todo.pop()
+                for sl in slots.get(str(g), []):
+                    for s_ in sl:
+                        if s_ not in ("A", "B") and s_ not in seen:
+                            seen.add(s_)
+                            todo.append(s_)
+            return sorted(seen)
+    return []
+
+
+def _running_at(case, ev):
+    """who is running when the function of `ev['fail']` raises -- the reading of the three ways to run a node:
+    `x.run()` runs x and what is inside it; `x.pull()` first lets the PARENT of x run the nodes upstream of x, then
+    runs x by itself; a run of the outermost graph has every composite above the raising node running"""
+    par = _owners(case)
+    k, t = ev["fail"], ev.get("target")
+    anc = _ancestors(par, k)
+    if ev["how"] == "root":
+        return anc
+    if ev["how"] == "inject":
+        return []
+    if k == t or t in anc:
+        return anc[: anc.index(t) + 1] if t in anc else []
+    owner = par[t][0]  # pull, an upstream sibling (or something inside it) raises
+    return anc[: anc.index(owner) + 1]
+
+
+def _recovery_scan():
+    res = []
+    for r_, _d, fs in os.walk("."):
+        for f in fs:
+            if f.startswith("recovery."):
+                res.append(os.path.relpath(os.path.join(r_, f)))
+    return sorted(res)
+
+
+def _walk_live(n):
+    from pyiron_workflow.nodes.composite import Composite
+
+    yield n
+    if isinstance(n, Composite):
+        for c in list(n.children.values()):
+            yield from _walk_live(c)
+
+
+def _attempt(f):
+    from .execsim import Stuck
+
+    try:
+        f()
+        return "ok"
+    except Stuck as e:
+        return f"stuck:{e}"
+    except BaseException as e:  # noqa: BLE001
+        return "failedchild" if type(e).__name__ == "FailedChildError" else f"raised:{type(e).__name__}"
+
+
+LOOP_SHAPES = {
+    # depth: (labels by id, parent by id, id of the loop, the composites running above the loop)
+    0: (["w", "n0", "items", "loop", "fold", "n1"], {1: 0, 2: 0, 3: 0, 4: 0, 5: 0}, 3, [0]),
+    1: (["w", "n0", "m", "n1", "items", "loop", "fold"], {1: 0, 2: 0, 3: 0, 4: 2, 5: 2, 6: 2}, 5, [0, 2]),
+    2: (["w", "n0", "m", "n1", "pre", "sweep", "post", "items", "loop", "fold"],
+        {1: 0, 2: 0, 3: 0, 4: 2, 5: 2, 6: 2, 7: 5, 8: 5, 9: 5}, 8, [0, 2, 5]),
+}
+
+
+def _build_loop(depth, as_set):
+    from pyiron_workflow import Workflow
+
+    from . import nodes, nodes_c08
+
+    wf = Workflow("w", autoload=None)
+    wf.n0 = nodes.term_node(0, label="n0")
+    if depth == 0:
+        from pyiron_workflow.nodes.for_loop import for_node
+
+        wf.items = nodes_c08.Items8(wf.n0, as_set)
+        wf.loop = for_node(nodes_c08.Body8, iter_on=("x",), x=wf.items, output_as_dataframe=False)
+        wf.fold = nodes_c08.Fold8(wf.loop.outputs.y)
+        wf.n1 = nodes.term_node(1, label="n1", a=wf.fold)
+    else:
+        wf.m = (nodes_c08.Sweep8 if depth == 1 else nodes_c08.Outer8)(wf.n0, as_set)
+        wf.n1 = nodes.term_node(1, label="n1", a=wf.m)
+    wf.deactivate_strict_hints()
+    return wf
+
+
+def _run_loop(case):
+    """a loop (at depth 0-2) is handed a set while type checking is off: the nodes that pick the items out run as the
+    loop assembles its body, inside a run of the outermost graph, with a parent (the loop) that is not running yet"""
+    import shutil
+
+    from pyiron_workflow import Workflow
+
+    from . import nodes
+    from .execsim import term_str
+
+    depth = case["loop"]
+    nodes.reset()
+    ref_out = _attempt(lambda: _build_loop(depth, False).run())
+    wf_ref = None
+    reference_ = None
+    if ref_out == "ok":
+        wf_ref = _build_loop(depth, False)
+        shutil.rmtree("w", ignore_errors=True)
+        nodes.reset()
+        reference_ = {k: term_str(v) for k, v in dict(wf_ref.run()).items()}
+    shutil.rmtree("w", ignore_errors=True)
+    nodes.reset()
+    wf = _build_loop(depth, True)
+    if case.get("norec"):
+        wf.recovery = None
+    out1 = _attempt(wf.run)
+    files = _recovery_scan()
+    r = {"idle": True, "loop": depth, "events": [{"how": "loop", "outcome": out1, "files": files, "idle_parent": True}],
+         "reference": reference_, "resume": None}
+    if out1 == "failedchild" and "w/recovery.pckl" in files:
+        def resume():
+            wf2 = Workflow("w", autoload=None)
+            wf2.load(filename=wf2.as_path().joinpath("recovery"))
+            wf2.delete_storage(filename=wf2.as_path().joinpath("recovery"))
+            owner = wf2 if depth == 0 else (wf2.m if depth == 1 else wf2.m.sweep)
+            # remove the cause: where the switch is connected to the macro's input, the macro's input is what counts
+            (owner.items if depth == 0 else owner).inputs.as_set = False
+            if depth == 2:
+                wf2.m.inputs.as_set = False
+            for n in _walk_live(wf2):
+                n.failed = False
+            nodes.CALL_LOG.clear()
+            r["resumed"] = {k: term_str(v) for k, v in dict(wf2.run()).items()}
+
+        r["resume"] = _attempt(resume)
+        r["calls2"] = [c[0] for c in nodes.CALL_LOG]
+    return {"obs": ["files " + " ".join(files)], "r": r,
+            "stats": {"kind:idle": 1, "idle:loop-assembly": 1, f"idle:loop-depth-{depth}": 1}}
+
+
+def _run_idle(case):
+    """failures of nodes whose parent is not running: a child run or pulled by hand, a node injected by an operator on
+    an output (it runs as it is created), before or after runs of the outermost graph; after EVERY event the whole
+    cwd tree is scanned for recovery files"""
+    from . import nodes, nodes_c08
+
+    if case.get("loop") is not None:
+        return _run_loop(case)
+    nodes.reset()
+    wf = _build(case)
+    lvs, node, _comp = _index(wf, case)
+    for n in _walk_live(wf):
+        n.use_cache = False  # an earlier successful run must not stand in for the call that is to fail
+    for g in case.get("norec", []):
+        (wf if g == case["N"] else node[g]).recovery = None
+    par = _owners(case)
+    evs, obs = [], []
+    stats = {"kind:idle": 1, "nested": int(len(lvs) > 1)}
+    try:
+        for ev in case["events"]:
+            for n in _walk_live(wf):
+                n.failed = False
+                n.running = False
+            nodes.FAIL.clear()
+            how = ev["how"]
+            if how == "clean":
+                out = _attempt(wf.run)
+            else:
+                if how == "inject":
+                    _install_faults([], {})
+                else:
+                    _install_faults([ev["fail"]], {str(ev["fail"]): ev.get("exc", "exc")})
+                if how == "root":
+                    out = _attempt(wf.run)
+                elif how == "run":
+                    out = _attempt(node[ev["target"]].run)
+                elif how == "pull":
+                    out = _attempt(node[ev["target"]].pull)
+                else:
+                    ch = nodes_c08.out_channel(node[ev["target"]])
+                    out = _attempt(lambda ch=ch: ch[99])  # an item that is not there: the new node raises as it is made
+            files = _recovery_scan()
+            running = [] if how == "clean" else _running_at(case, ev)
+            # the topmost node that runs in this event has a parent, and that parent is not running
+            idle_parent = how not in ("clean", "root") and case["N"] not in running
+            evs.append({"how": how, "outcome": out, "files": files, "idle_parent": idle_parent})
+            obs.append("files " + " ".join(files))
+            stats[f"idle:{how}"] = stats.get(f"idle:{how}", 0) + 1
+            if idle_parent and out != "ok":
+                stats["idle:raised-with-idle-parent"] = 1
+    finally:
+        _restore_faults()
+        nodes.FAIL.clear()
+    return {"obs": obs, "r": {"idle": True, "events": evs}, "stats": stats}
+
+
+def _idle_model_input(case):
+    if case.get("loop") is not None:
+        labels, parent, loop, above = LOOP_SHAPES[case["loop"]]
+        new = len(labels)
+        lines = [f"forest {i} {parent.get(i, '-')} {lab}" for i, lab in enumerate(labels)]
+        lines += [f"forest {new} {loop} inj0"]
+        if case.get("norec"):
+            lines.append("norecovery 0")
+        run = " ".join(map(str, above))
+        # the picking node raises (its parent, the loop, has not started), then the loop itself, inside the running graph
+        return lines + [f"fevent {new} {run}", f"fevent {loop} {run}", "fscan"]
+    par = _owners(case)
+    root = case["N"]
+    lines = [f"forest {root} - w"] + [f"forest {g} {p} {lab}" for g, (p, lab) in sorted(par.items())]
+    lines += [f"norecovery {g}" for g in case.get("norec", [])]
+    new = root + 1
+    for ev in case["events"]:
+        if ev["how"] == "inject":
+            lines.append(f"forest {new} {par[ev['target']][0]} inj{new}")
+            lines.append(f"fevent {new}")
+            new += 1
+        elif ev["how"] != "clean":
+            lines.append(f"fevent {ev['fail']} " + " ".join(map(str, _running_at(case, ev))))
+        lines.append("fscan")
+    return lines
+
+
+def _idle_oracle(case, r):
+    """the only recovery files anywhere under the cwd are the outermost graph's -- after every single failure"""
+    fails = []
+    norec_root = case["N"] in case.get("norec", []) if case.get("loop") is None else bool(case.get("norec"))
+    root_failed = False
+    for j, ev in enumerate(r["events"]):
+        stray = [f for f in ev["files"] if os.path.dirname(f) != "w"]
+        if stray:
+            fails.append({"clause": "recovery-file-below-the-outermost-graph", "event": j, "how": ev["how"],
+                          "idle_parent": ev["idle_parent"], "n_stray": len(stray)})
+        if ev["how"] in ("root", "loop") and ev["outcome"] != "ok":
+            root_failed = True
+        if ev["how"] == "pull" and ev["outcome"] != "ok" and not ev["idle_parent"]:
+            c_ev = case["events"][j]
+            if _owners(case)[c_ev["target"]][0] == case["N"]:
+                root_failed = True  # the outermost graph itself ran the upstream nodes, and failed
+        at_root = [f for f in ev["files"] if os.path.dirname(f) == "w"]
+        if root_failed and not norec_root and len(at_root) != 1:
+            fails.append({"clause": "file-not-exactly-at-root", "event": j, "how": ev["how"], "n_at_root": len(at_root)})
+        if (not root_failed or norec_root) and at_root:
+            fails.append({"clause": "recovery-file-without-a-failed-run-of-the-root", "event": j, "how": ev["how"]})
+    if case.get("loop") is not None and r.get("resume") is not None:
+        if r["resume"] != "ok":
+            fails.append({"clause": "resumed-run-fails", "kind": "idle-loop", "outcome": r["resume"].split(":")[0]})
+        elif r.get("resumed") != r.get("reference"):
+            fails.append({"clause": "resumed-outputs-differ", "kind": "idle-loop"})
+        elif 0 in r.get("calls2", []):
+            fails.append({"clause": "completed-node-called-again", "kind": "idle-loop"})
+    return fails
+
+
+
 # --------------------------------------------------------------------------- observations / model input
 
 
@@ -1007,6 +1294,8 @@ def model_input(case, impl):
     if case.get("kind") == "malformed":
         return list(case["lines"])
     r = impl.get("r") or {}
+    if case.get("kind") == "idle":
+        return _idle_model_input(case)
     if "wiring1" not in r:
         return ["n 0", "bogus"]
     if case["kind"] == "continue":
@@ -1126,6 +1415,8 @@ def oracle(case, impl):
     r = impl.get("r") or {}
     fails = []
     kind = case["kind"]
+    if kind == "idle":
+        return _idle_oracle(case, r) if r.get("events") else []
     if kind == "continue":
         if r.get("no_cut") or r.get("skip"):
             return []
@@ -1290,6 +1581,8 @@ def nontrivial(case, impl):
     r = impl.get("r") or {}
     if case.get("kind") == "continue":
         return bool(r.get("running_at_cut"))
+    if case.get("kind") == "idle":
+        return any(e["idle_parent"] and e["outcome"] != "ok" for e in r.get("events", []))
     if "loaded" not in r:
         return False
     lv = leaves_of(case)
@@ -1515,7 +1808,53 @@ def gen_continue_case(rng, tier):
             "choices": [0 if rng.random() < 0.9 else rng.randint(0, 3) for _ in range(4 * len(leaves))]}
 
 
+def gen_idle_case(rng, tier):
+    """a random tree and a short history of failures outside / inside runs of the outermost graph"""
+    base = gen_case(rng, tier, force_kind="recovery", nested=rng.random() < 0.7)
+    case = {**base, "kind": "idle", "fails": [], "kinds": {}, "exec": [], "exec2": [], "dirty": [], "cp": [],
+            "fails2": [], "kinds2": {}, "force_starters": [], "suppress": False, "flow": False, "ckpt": None,
+            "ckpt_more": [], "choices": [], "choices2": [], "choices3": []}
+    par = _owners(case)
+    leaves = leaves_of(case)
+    nodes_ = sorted(g for lv in levels_of(case) for g in lv["own"] if g not in lv["ui"])
+
+    def inside(t):
+        return [k for k in leaves if k == t or t in _ancestors(par, k)]
+
+    events, ran, root_done = [], False, False
+    for _ in range(rng.randint(1, 3)):
+        how = rng.choices(["run", "pull", "inject", "root", "clean"], [35, 35, 12, 12, 6])[0]
+        exc = rng.choices(["exc", "value", "kbd"], [6, 3, 1])[0]
+        if how == "root" and root_done:
+            how = "run"
+        if how == "clean":
+            events.append({"how": "clean"})
+            ran = True
+        elif how == "root":
+            events.append({"how": "root", "fail": rng.choice(leaves), "exc": exc})
+            root_done = True
+        elif how == "inject":
+            if not ran:
+                events.append({"how": "clean"})
+                ran = True
+            events.append({"how": "inject", "target": rng.choice(leaves), "fail": None})
+        else:
+            t = rng.choice(nodes_)
+            ups = _upstream(case, t) if how == "pull" else []
+            src = rng.choice(ups) if ups and rng.random() < 0.5 else t
+            events.append({"how": how, "target": t, "fail": rng.choice(inside(src)), "exc": exc})
+    norec = []
+    if rng.random() < 0.15:
+        norec = [rng.choice([case["N"], *nodes_])]
+    return {**case, "events": events, "norec": norec}
+
+
 def gen_cases(rng, tier):
+    for _ in range(40 if tier == "quick" else 600):
+        yield gen_idle_case(rng, tier)
+    for depth in (0, 1, 2):
+        yield {"kind": "idle", "loop": depth, "norec": False}
+    yield {"kind": "idle", "loop": 1, "norec": True}
     for _ in range(30 if tier == "quick" else 500):
         yield gen_flow_case(rng, tier)
     for _ in range(20 if tier == "quick" else 300):
@@ -1600,10 +1939,42 @@ def corpus():
     yield {**base, "kind": "recovery", "fails": [6], "kinds": {"6": "kbd"}}
     yield {**base, "kind": "checkpoint", "fails": [], "ckpt": 5}
     yield {**base, "kind": "recovery", "fails": [2], "dirty": [5]}
+    # failures with an idle parent (Props/C08: C08_idle_parent_no_file, C08_parent_idle_variant_witness): a child two
+    # macros deep run by hand; a macro run by hand whose child raises; a pull whose upstream macro fails (the macro's
+    # own parent idle / the outermost graph itself driving the upstream run); a node injected by an operator on an
+    # output, raising as it is created; all of it after a failed run of the outermost graph has left ITS file
+    idle = {**base, "kind": "idle", "fails": [], "norec": []}
+    yield {**idle, "events": [{"how": "run", "target": 6, "fail": 6}]}
+    yield {**idle, "events": [{"how": "run", "target": 8, "fail": 6}, {"how": "run", "target": 7, "fail": 6, "exc": "kbd"}]}
+    yield {**idle, "events": [{"how": "pull", "target": 4, "fail": 6}, {"how": "pull", "target": 6, "fail": 6}]}
+    yield {**idle, "events": [{"how": "pull", "target": 2, "fail": 1}, {"how": "run", "target": 1, "fail": 1}]}
+    yield {**idle, "events": [{"how": "clean"}, {"how": "inject", "target": 6, "fail": None},
+                              {"how": "inject", "target": 1, "fail": None}]}
+    yield {**idle, "events": [{"how": "root", "fail": 5}, {"how": "run", "target": 5, "fail": 5},
+                              {"how": "pull", "target": 4, "fail": 6}]}
+    yield {**idle, "events": [{"how": "root", "fail": 5}], "norec": [14]}
+    # the child of a flat workflow is pulled and its own function raises (seeded/C08-9/demo.py, b)
+    yield _flat(3, [[[], [], []], [[0], [], []], [[1], [], []]], kind="idle", norec=[],
+                events=[{"how": "pull", "target": 1, "fail": 1}])
+    # a loop, in a macro / two macros deep / directly in the workflow, is handed a set with type checking off: the
+    # nodes picking the items out fail while the loop assembles its body, inside a run of the outermost graph
+    for depth in (1, 2, 0):
+        yield {"kind": "idle", "loop": depth, "norec": False}
 
 
 def shrink_candidates(case):
     if case.get("kind") == "malformed":
+        return
+    if case.get("kind") == "idle":
+        if case.get("loop") is not None:
+            return
+        evs = case["events"]
+        for j in range(len(evs)):
+            rest = evs[:j] + evs[j + 1:]
+            if rest and not (evs[j]["how"] == "clean" and any(e["how"] == "inject" for e in rest[j:])):
+                yield {**case, "events": rest}
+        if case.get("norec"):
+            yield {**case, "norec": []}
         return
     if case.get("kind") == "continue":
         for g in case["exec"]:
